@@ -12,6 +12,8 @@ from pathlib import Path
 
 import networkx as nx
 
+from . import common as c
+
 NOT_LABELS = ("resid", "resname", "seqid", "build", "backmap", "graph", "id")
 AA = "GAVCPLIMWFSTYNQKRHDEO"
 
@@ -436,6 +438,21 @@ def obs_for_trace(obs):
     if obs is None or "exc" in obs:
         return {"numok": False, "n": 0, "name": [], "inst": [], "lab": [], "edges": [], "why": (obs or {}).get("exc", "none")}
     return {k: obs[k] for k in ("numok", "n", "name", "inst", "lab", "edges")}
+
+
+def validate(traces, name, cfg="Seq_trace.cfg", prop="C12"):
+    """-> (TLC result, {tid (1-based): events matched}) for the rejected traces"""
+    wd = c.workdir(prop, "val_" + name)
+    f = wd / "traces.json"
+    f.write_text(json.dumps({"traces": traces}))
+    res = c.tlc("SeqInputTrace", cfg, workers=1, env={"TRACE_FILE": str(f), "JAVA_TOOL_OPTIONS": "-Xss64m -XX:TieredStopAtLevel=1"}, check=False)
+    rej = res.tagged("REJECTED")
+    if (res.rc != 0 and not rej) or res.inv_violated or (res.rc == 0 and "Model checking completed" not in res.out):
+        raise c.MachineryError("SeqInputTrace failed (%s): %s" % (name, res.out[-2500:]))
+    rejected = {}
+    for r in rej:
+        rejected.update({int(t): int(m) for t, m in r})
+    return res, rejected
 
 
 def setenv():
